@@ -14,6 +14,16 @@ Section Gate.
   Context {V : Type}.
   Notation tensor := (@tensor V).
 
+  (* np.transpose(np.transpose(t, tl), untranspose_list) = t *)
+  Lemma transpose_untranspose_id (t : tensor) tl idx :
+    is_perm tl -> length idx = length tl ->
+    transpose (transpose t tl) (untranspose_list tl) idx = t idx.
+  Proof.
+    intros Hp Hl. unfold transpose.
+    rewrite (untranspose_list_is_inverse _ Hp), (unperm_inv_perm _ _ Hp).
+    now rewrite unperm_gather_id.
+  Qed.
+
   (* ---- the common tail: transpose by tl = rest ++ taxes, act on trailing axes, untranspose ---- *)
   Lemma apply_with_tl_gather (F : tensor -> tensor) rest taxes (st : tensor) idx :
     is_perm (rest ++ taxes) ->
